@@ -54,6 +54,15 @@ static std::string eval_rpn(const std::string& rpn, Operator& out, std::vector<S
                 Special s; s.kind = 3; s.M = 0; s.ups = ups; s.downs = downs; specials.push_back(s);
             }
             else if (k == 'k') { Operator a; a += MelemType(parse_q(r)); st.push_back(a); }
+            else if (k == 'm') {   // raw monomial through normalize_and_insert, e.g. mc0.d1.d0
+                Operator::monomial_t m;
+                std::stringstream ms(r); std::string w;
+                while (std::getline(ms, w, '.')) if (!w.empty())
+                    m.push_back(boost::make_tuple(w[0] == 'd' ? Operator::creation : Operator::annihilation, ParticleIndex(atoi(w.substr(1).c_str()))));
+                Operator a;
+                Operator::normalize_and_insert(m, MelemType(1), a.monomials);
+                st.push_back(a);
+            }
             else if (k == 's') { Operator a = st.back(); st.pop_back(); st.push_back(a * MelemType(parse_q(r))); }
             else if (k == 'a') { Operator a = st.back(); st.pop_back(); st.push_back(a + MelemType(parse_q(r))); }
             else if (k == 'b') { Operator a = st.back(); st.pop_back(); st.push_back(a - MelemType(parse_q(r))); }
@@ -72,7 +81,7 @@ static void print_poly(const char* tag, const Operator& op) {
         if (it->first.empty()) printf("1");
         for (size_t i = 0; i < it->first.size(); ++i)
             printf("%s%c%u", i ? "." : "", boost::get<0>(it->first[i]) == Operator::creation ? 'd' : 'c', boost::get<1>(it->first[i]));
-        printf("=%s", pv::hexm(it->second).c_str());
+        printf("=%s", pv::hexd(std::real(ComplexType(it->second))).c_str());
     }
     printf("\n");
 }
@@ -104,7 +113,7 @@ int main(int argc, char* argv[]) {
         std::vector<Special> sp, spB;
         std::string ea = eval_rpn(line.substr(p1 + 1, p2 - p1 - 1), A, sp);
         std::string eb = eval_rpn(line.substr(p2 + 1), B, spB);
-        if (!ea.empty() || !eb.empty()) { printf("ERR %s %s\nEND\n", ea.c_str(), eb.c_str()); continue; }
+        if (!ea.empty() || !eb.empty()) { printf("ERR %s %s\nEND\n", ea.c_str(), eb.c_str()); fflush(stdout); continue; }
         print_poly("A", A);
         print_poly("B", B);
         Operator AB = A * B;
@@ -127,11 +136,11 @@ int main(int argc, char* argv[]) {
                 if (sp[i].kind == 1) { OperatorPresets::N n(sp[i].M); fast = n.getMatrixElement(ket, ket); slow = Operator(n).getMatrixElement(ket, ket); }
                 else if (sp[i].kind == 2) { OperatorPresets::Sz z(sp[i].M, sp[i].ups); fast = z.getMatrixElement(ket, ket); slow = Operator(z).getMatrixElement(ket, ket); }
                 else { OperatorPresets::Sz z(sp[i].ups, sp[i].downs); fast = z.getMatrixElement(ket, ket); slow = Operator(z).getMatrixElement(ket, ket); }
-                printf(" %lu:%s/%s", k, pv::hexd(std::real(ComplexType(fast))).c_str(), pv::hexd(std::real(ComplexType(slow))).c_str());
+                printf(" %lu:%s|%s", k, pv::hexd(std::real(ComplexType(fast))).c_str(), pv::hexd(std::real(ComplexType(slow))).c_str());
             }
             printf("\n");
         }
-        printf("END\n");
+        printf("END\n"); fflush(stdout);
     }
     return 0;
 }
